@@ -82,3 +82,10 @@ inst!(c02_matches_2x2_k1_m1, 10, with_matches::<2, 2, 1, 1, 15>());
 inst!(c02_matches_3x3_k2_m1, 12, with_matches::<3, 3, 1, 2, 15>());
 inst!(c02_matches_3x3_k1_m2, 12, with_matches::<3, 3, 2, 1, 15>());
 inst!(c02_matches_3x3_k1_m2_k0, 12, with_matches::<3, 3, 2, 1, 0>());
+// empty sequences (the property quantifies over bytes*, including empty)
+inst!(c02_full_custom_0x0_k15, 6, full_band::<0, 0, 1, 15, 0>());
+inst!(c02_full_global_0x0, 6, full_band::<0, 0, 1, 0, 1>());
+inst!(c02_full_custom_0x2_k15, 7, full_band::<0, 2, 2, 15, 0>());
+inst!(c02_full_custom_2x0_k15, 7, full_band::<2, 0, 2, 15, 0>());
+inst!(c02_full_global_0x2, 7, full_band::<0, 2, 2, 0, 1>());
+inst!(c02_full_local_0x2, 7, full_band::<0, 2, 2, 0, 3>());
